@@ -15,6 +15,20 @@ FIRST = {
     "C12-2": "missed; error-span oracle",
     "C13-1": "missed; empty-context call shape added",
     "C18-1": "missed; empty literal/piped context forms added",
+    "C02-3": "missed (and crashed the C02 oracle); plan program marks entries that are not in the initial tree, initial-tree selection oracle, moves into existing directories",
+    "C05-3": "missed; same strengthening as C02-3",
+    "C06-3": "missed; plans through symlinked components followed by '..'",
+    "C07-3": "missed; stream moving_runs (selection judged on real, moving runs)",
+    "C08-3": "missed; stream multiroot_order (order over all input directories)",
+    "C09-4": "missed; repeated named arguments and other unusual grammatical shapes in the CLI stream",
+    "C10-4": "missed; identifiers that look like boolean words (TRUE, tRue, ...) as argument names",
+    "C11-3": "missed; skipped white space (TAB/LF/CR) inside the piped raw text",
+    "C15-3": "missed; alias patterns with leading/trailing/only blanks",
+    "C15-4": "missed; falsy arguments (0, '', false) on an alias",
+    "C16-2": "missed by C16 (caught by C15); alias used twice in the C16 CLI stream",
+    "C18-4": "missed; Remove with several patterns judged against successive removal",
+    "C20-3": "missed; the same ad-hoc tag twice in one template with different arguments",
+    "C20-4": "missed; carriage returns inside the program's output",
 }
 rows = ["| seed | change (as its author described it) | detected by | first attempt |", "|---|---|---|---|"]
 for d in sorted(glob.glob(str(VERIF / "seeded" / "*"))):
